@@ -440,7 +440,8 @@ impl FactorizedExpandChain {
                     // Filter by edge type if specified
                     let type_matches = if let Some(ref filter_type) = edge_type {
                         if let Some(et) = self.store.edge_type(*edge_id) {
-                            et.as_str() == filter_type.as_str()
+                            // same comparison as the first level and the flat ExpandOperator
+                            et.as_str().eq_ignore_ascii_case(filter_type.as_str())
                         } else {
                             false
                         }
